@@ -3,9 +3,9 @@
 usage: c16_child.py <mode> <logfile> <delay-seconds>
 
 Readiness is signalled on stdout as the JSON-RPC notification `notifications/ready` (after every
-signal disposition has been installed).  Every result the child really wrote is appended to
-<logfile> as `W <tok>` AFTER the write to stdout returned - the harness uses it as ground truth for
-"a result the child wrote before it died".
+signal disposition has been installed).  Every result the child writes is appended to <logfile> as
+`W <tok>` immediately before the write to stdout - the harness uses it as ground truth for "a result the
+child wrote before it died" (a request the child never got to, or died on, has no line).
 """
 import json
 import os
@@ -71,9 +71,11 @@ def serve(exit_on=None, on_eof="exit", eof_delay=0.0):
             if exit_on == "recv":
                 os._exit(3)
             tok = (m.get("params") or {}).get("tok", 0)
+            # logged just BEFORE the write: the client may leave (and SIGTERM us) the instant it has the answer,
+            # i.e. before a log line written after the write would exist
+            note("W %d" % tok)
             try:
                 out({"jsonrpc": "2.0", "id": m["id"], "result": {"tok": tok}})
-                note("W %d" % tok)
             except OSError:
                 pass
             if exit_on == "sent":
